@@ -590,7 +590,7 @@ func checkC13(c *Ctx) {
 					}
 					if len(lf.Path) == 1 {
 						m[lf.Path[0]] = v
-					} else if sub, ok := m[lf.Path[0]].(map[string]interface{}); ok && len(lf.Path) == 2 {
+					} else if sub, ok := m[lf.Path[0]].(map[string]interface{}); ok && sub != nil && len(lf.Path) == 2 {
 						sub[lf.Path[1]] = v
 					}
 					c.count("long_unordered_typed_slice_at_a_list_comparison")
@@ -600,7 +600,7 @@ func checkC13(c *Ctx) {
 					bs := []byte(pick(c.R, []string{"Bearer ABC", "ABC", "1.2.3", "Straße", "X"}))
 					if len(lf.Path) == 1 {
 						m[lf.Path[0]] = bs
-					} else if sub, ok := m[lf.Path[0]].(map[string]interface{}); ok && len(lf.Path) == 2 {
+					} else if sub, ok := m[lf.Path[0]].(map[string]interface{}); ok && sub != nil && len(lf.Path) == 2 {
 						sub[lf.Path[1]] = bs
 					}
 				}
